@@ -650,8 +650,20 @@ int EGLPNUM_TYPENAME_ILLsimplex_solution (
 		}
 		for (i = 0; i < lp->nrows; i++)
 			EGLPNUM_TYPENAME_EGlpNumZero (dz[lp->baz[i]]);
+		/* reduced costs are computed from the multipliers rather than copied from
+		 * lp->dz: with partial pricing lp->dz is only maintained for the columns
+		 * that were priced (a fixed non-basic column keeps a stale value) */
 		for (j = 0; j < lp->nnbasic; j++)
-			EGLPNUM_TYPENAME_EGlpNumCopy (dz[lp->nbaz[j]], lp->dz[j]);
+		{
+			int k, mcnt, mbeg;
+			col = lp->nbaz[j];
+			mcnt = lp->matcnt[col];
+			mbeg = lp->matbeg[col];
+			EGLPNUM_TYPENAME_EGlpNumCopy (dz[col], lp->cz[col]);
+			for (k = 0; k < mcnt; k++)
+				EGLPNUM_TYPENAME_EGlpNumSubInnProdTo (dz[col], lp->piz[lp->matind[mbeg + k]],
+														 lp->matval[mbeg + k]);
+		}
 	}
 	if (objval != NULL)
 		EGLPNUM_TYPENAME_EGlpNumCopy (*objval, lp->objval);
